@@ -294,3 +294,50 @@ def model_val_case(ctx, case):
                 ctx.violation(dict(sig, q="best_actions"), f"instance {b}: the reported best actions have objective {v}, the best rollout of that instance has {best[b]}", dict(S=S_, A=A_, B=B))
                 return
     ctx.nontrivial_case(dict(c=case))
+
+
+def evaluator_reuse_case(ctx, case):
+    """One evaluator OBJECT used for several data sets in a row (a test file after a validation file): every call must report
+    exactly the instances of ITS data set, row i = instance i, reward = objective of the returned actions."""
+    from torch.utils.data import DataLoader
+
+    import rl4co.tasks.eval as EV
+
+    name, n, seed, cls_name = case["env"], case["n"], case["s"], case["evaluator"]
+    env, O, cfg = policies.env_for(name, n)
+    pol = policies.make("am", env, seed=seed % 5)
+    kw = dict(GreedyEval={}, AugmentationEval=dict(num_augment=case.get("A", 4)), SamplingEval=dict(samples=3, softmax_temp=1.0),
+              GreedyMultiStartEval=dict(num_starts=3), GreedyMultiStartAugmentEval=dict(num_starts=3, num_augment=case.get("A", 4)))[cls_name]
+    ev = getattr(EV, cls_name)(env, progress=False, **kw)
+    sig = dict(kind="evaluator_reuse", env=name, evaluator=cls_name)
+    tol = lambda x: 1e-4 * max(1.0, abs(x))
+    torch.manual_seed(seed)
+    for call, N in enumerate(case["sizes"]):
+        td_all = env.generator(batch_size=[N])
+        ds = env.dataset_cls(td_all.clone())
+        dl = DataLoader(ds, batch_size=case["bs"], collate_fn=ds.collate_fn)
+        try:
+            res = ev(pol, dl)
+        except Exception as e:
+            ctx.evaluation()
+            ctx.violation(dict(sig, q="raises", exc=type(e).__name__, call=min(call, 1)), f"{cls_name} call {call} raised {type(e).__name__}: {str(e)[:200]}", None)
+            return
+        ctx.count("c15_evaluator_reuse_calls")
+        rewards, actions = res["rewards"], res["actions"]
+        ctx.evaluation()
+        if rewards.shape[0] != N or actions.shape[0] != N:
+            ctx.violation(dict(sig, q="rows", call=min(call, 1)), f"call {call} on a data set of {N} instances returned {rewards.shape[0]} rewards / {actions.shape[0]} action rows", dict(sizes=case["sizes"]))
+            return
+        insts = [O.extract(td_all, env.reset(td_all.clone()), i, env) for i in range(N)]
+        for i in range(N):
+            ctx.evaluation()
+            ctx.count("c15_eval_rows")
+            acts = strip(actions[i].tolist(), name)
+            ref = O.objective(insts[i], acts)
+            if abs(float(rewards[i]) - ref) > tol(ref) or any(x[1] == "violated" for x in O.violations(insts[i], acts)):
+                ctx.violation(dict(sig, q="reward_vs_actions", call=min(call, 1)), f"call {call}, instance {i}: reported reward {float(rewards[i])} vs objective {ref} of the returned actions on that instance", dict(sizes=case["sizes"]))
+                return
+        if abs(float(res["avg_reward"]) - float(rewards.mean())) > 1e-5 * max(1.0, abs(float(rewards.mean()))):
+            ctx.violation(dict(sig, q="avg_reward", call=min(call, 1)), f"call {call}: avg_reward {float(res['avg_reward'])} != mean of the per-instance rewards {float(rewards.mean())}", None)
+            return
+        ctx.nontrivial_case(dict(c=case, call=call))
